@@ -1,5 +1,6 @@
 import MongoModel.Wire
 import MongoModel.Filter
+import Spec.MatchDomain
 open MongoModel MongoModel.Wire
 
 def handle (ts : List String) : List String :=
@@ -18,6 +19,14 @@ def handle (ts : List String) : List String :=
     match parseVal r with
     | some (f, r') => match parseVal r' with
       | some (d, []) => showR showBool (filterApplies f d)
+      | _ => ["?parse"]
+    | _ => ["?parse"]
+  | "c01" :: r =>
+    match parseVal r with
+    | some (f, r') => match parseVal r' with
+      | some (d, []) =>
+        showR showBool (filterApplies f d) ++ ["|"] ++ showR showBool (Spec.specMatches f d)
+          ++ ["|"] ++ (Spec.reasons f d).eraseDups
       | _ => ["?parse"]
     | _ => ["?parse"]
   | _ => ["?cmd"]
